@@ -144,12 +144,12 @@ Section Loop.
   Qed.
 
   (* ----- the whole connection, for EVERY input byte string ----- *)
-  (* the trace of a connection that was admitted (plain, or TLS with accepted certificate) *)
-  Definition admitted (ss : sstate) (tls : option (list bytes)) : bool :=
+  (* the trace of a connection that was let_in (plain, or TLS with accepted certificate) *)
+  Definition let_in (ss : sstate) (tls : option (list bytes)) : bool :=
     match tls with Some _ => authenticate ss (initial_cstate ss tls) | None => true end.
 
   Theorem serve_shape ss hs tls input :
-    admitted ss tls = true ->
+    let_in ss tls = true ->
     exists its closing,
       trace (serve ss hs tls input) = [EvRegister] ++ loop_evs its closing ++ [EvDeregister; EvClose] /\
       its_good its /\ (closing = [] \/ closing = loop_closing) /\
@@ -175,7 +175,7 @@ Section Loop.
       cbn [rev]. rewrite rev_app_distr, rev_involutive. cbn [rev app].
       rewrite <- !app_assoc. reflexivity. }
     destruct tls as [chain|].
-    - unfold admitted in Had. fold c in Had. rewrite Had.
+    - unfold let_in in Had. fold c in Had. rewrite Had.
       exists its, closing. split; [apply T; reflexivity|]. split; [exact G|]. split; [exact Hc|].
       destruct (serve_loop (S (length input)) w input); exact Hend.
     - exists its, closing. split; [apply T; reflexivity|]. split; [exact G|]. split; [exact Hc|].
@@ -184,26 +184,26 @@ Section Loop.
 
   (* a TLS client whose certificate is not accepted: the socket is closed, nothing else happens *)
   Theorem serve_rejected ss hs chain input :
-    admitted ss (Some chain) = false -> trace (serve ss hs (Some chain) input) = [EvClose].
-  Proof. unfold admitted, Conn.serve. intros ->. reflexivity. Qed.
+    let_in ss (Some chain) = false -> trace (serve ss hs (Some chain) input) = [EvClose].
+  Proof. unfold let_in, Conn.serve. intros ->. reflexivity. Qed.
 
   (* C20 *)
   Theorem serve_balanced ss hs tls input : bal (trace (serve ss hs tls input)) false 0 = true.
   Proof.
-    destruct (admitted ss tls) eqn:A.
+    destruct (let_in ss tls) eqn:A.
     - destruct (serve_shape ss hs tls input A) as (its & closing & -> & G & Hc & _).
       cbn [app bal]. rewrite bal_loop by exact G. destruct Hc as [->| ->]; reflexivity.
     - destruct tls as [chain|]; [|discriminate]. rewrite serve_rejected by exact A. reflexivity.
   Qed.
 
-  (* C19 (model half): registered exactly once at the start iff admitted, deregistered and closed exactly once at the
+  (* C19 (model half): registered exactly once at the start iff let_in, deregistered and closed exactly once at the
      end, and nothing in between touches the registry or the socket *)
   Theorem serve_released ss hs tls input :
-    (admitted ss tls = true /\ exists mid, trace (serve ss hs tls input) = EvRegister :: mid ++ [EvDeregister; EvClose]
+    (let_in ss tls = true /\ exists mid, trace (serve ss hs tls input) = EvRegister :: mid ++ [EvDeregister; EvClose]
                                           /\ existsb is_conn_ev mid = false) \/
-    (admitted ss tls = false /\ trace (serve ss hs tls input) = [EvClose]).
+    (let_in ss tls = false /\ trace (serve ss hs tls input) = [EvClose]).
   Proof.
-    destruct (admitted ss tls) eqn:A.
+    destruct (let_in ss tls) eqn:A.
     - left. split; [reflexivity|]. destruct (serve_shape ss hs tls input A) as (its & closing & -> & G & Hc & _).
       exists (loop_evs its closing). split; [reflexivity|]. apply no_conn_loop; assumption.
     - right. split; [reflexivity|]. destruct tls as [chain|]; [|discriminate]. apply serve_rejected; exact A.
@@ -213,7 +213,7 @@ Section Loop.
   Theorem serve_writes_framed ss hs tls input :
     exists vs, ev_writes (trace (serve ss hs tls input)) = map encode vs /\ Forall resp2 (map encode vs).
   Proof.
-    destruct (admitted ss tls) eqn:A.
+    destruct (let_in ss tls) eqn:A.
     - destruct (serve_shape ss hs tls input A) as (its & closing & -> & G & Hc & _).
       exists (map snd its). rewrite !ev_writes_app. cbn [ev_writes flat_map app]. rewrite app_nil_r.
       rewrite writes_loop by assumption. rewrite map_map. split; [reflexivity|].
@@ -225,9 +225,9 @@ Section Loop.
   Theorem serve_no_panic ss hs tls input :
     fst (serve ss hs tls input) <> EndPanic /\ fst (serve ss hs tls input) <> EndFuel.
   Proof.
-    destruct (admitted ss tls) eqn:A.
+    destruct (let_in ss tls) eqn:A.
     - destruct (serve_shape ss hs tls input A) as (_ & _ & _ & _ & _ & [E|[E|E]]); rewrite E; split; discriminate.
-    - destruct tls as [chain|]; [|discriminate]. unfold admitted in A. unfold Conn.serve. rewrite A. split; discriminate.
+    - destruct tls as [chain|]; [|discriminate]. unfold let_in in A. unfold Conn.serve. rewrite A. split; discriminate.
   Qed.
 
   (* ----- request sequences ----- *)
